@@ -33,6 +33,16 @@ def true_roots(world, ev, ta, tb):
     if ev.kind == "time":
         c = float(ev.c)
         return [(c, s)] if lo <= c <= hi else []
+    if ev.kind == "tsin":
+        w_, c0 = float(ev.desc["w"]), float(ev.desc["c0"])
+        out = []
+        n0 = math.floor((lo - c0) * w_ / math.pi) - 1
+        n1 = math.ceil((hi - c0) * w_ / math.pi) + 1
+        for n in range(int(n0), int(n1) + 1):
+            tr = c0 + n * math.pi / w_
+            if lo <= tr <= hi:
+                out.append((tr, s * w_ * math.cos(n * math.pi)))
+        return sorted(out)
     prob = world.problem
     if prob.family != "osc":
         return None
@@ -73,6 +83,8 @@ def hdot_scale(world, ev, t, y):
     """|d/dt h(t, y(t))| at (t,y): slope of the un-scaled event function along the flow."""
     if ev.kind == "time":
         return 1.0
+    if ev.kind == "tsin":
+        return abs(float(ev.desc["w"]))
     f = np.asarray(world.f_math(t, y), dtype=np.float64).reshape(-1)
     if ev.kind == "state":
         return abs(float(f[ev.comp])) + 1e-300
@@ -225,7 +237,7 @@ class Events(Monitor):
                 # residual
                 gval = abs(_f(g_math(world, ev, e.t, np.asarray(e.y))))
                 hd = hdot_scale(world, ev, e.t, np.asarray(e.y))
-                hmag = abs(float(ev.c)) + (abs(te) if ev.kind == "time" else float(np.max(np.abs(np.asarray(e.y, dtype=np.float64)))))
+                hmag = abs(float(ev.c)) + (abs(te) if ev.kind == "time" else (1.0 + abs(float(ev.desc["w"]) * te) if ev.kind == "tsin" else float(np.max(np.abs(np.asarray(e.y, dtype=np.float64))))))
                 if ev.kind == "dstate":
                     hmag = abs(float(ev.c)) + float(np.max(np.abs(np.asarray(world.f_math(e.t, np.asarray(e.y)), dtype=np.float64))))
                 bound = 64 * abs(float(ev.scale)) * (hd * eps * max(abs(te), 1.0) * 4 + eps * hmag * 8)
